@@ -1582,6 +1582,170 @@ def part_forkexec(ctx, objdir):
                           dict(rep, first=list(probes[r["mismatch"][0]])), False)
 
 
+
+# ---------------------------------------------------------------- U: unload and reload over one address range
+# dlopen(NULL) / failed dlopen / RTLD_NOLOAD calls, then: dlopen(A), call into A, dlclose(A), dlopen(B) - the
+# loader maps B where A was (same layout) - call into B.  The first call must be shown under A's function, the
+# second under B's: "from their load time on".  Every DLOP stamp must lie between the record of the dlopen()
+# call that did the load and the first record inside the library.
+U_LIB_C = "int c10u_%s(int x) { return x + %d; }\n"
+U_MAIN_C = r"""
+#define _GNU_SOURCE
+#include <dlfcn.h>
+#include <stdio.h>
+#include <stdlib.h>
+typedef int (*fn_t)(int);
+static void empties(int mask, const char *lib)
+{
+	if (mask & 1) { void *s = dlopen(NULL, RTLD_NOW); fprintf(stderr, "C10OP null %%d\n", s != NULL); }
+	if (mask & 2) { void *s = dlopen("/nonexistent/c10-no-such-lib.so", RTLD_NOW); fprintf(stderr, "C10OP fail %%d\n", s != NULL); }
+	if (mask & 4) { void *s = dlopen(lib, RTLD_NOW | RTLD_NOLOAD); fprintf(stderr, "C10OP noload %%d\n", s != NULL); }
+}
+static int use(const char *lib, const char *sym, int arg)
+{
+	Dl_info di; void *h; fn_t f; int r;
+	h = dlopen(lib, RTLD_NOW | RTLD_LOCAL);
+	if (!h) { fprintf(stderr, "dlopen: %%s\n", dlerror()); exit(2); }
+	f = (fn_t)dlsym(h, sym);
+	if (!f) exit(2);
+	r = f(arg);
+	if (dladdr((void *)f, &di)) fprintf(stderr, "C10LOAD %%s %%lx %%lx\n", sym, (unsigned long)di.dli_fbase, (unsigned long)f);
+	dlclose(h);
+	return r;
+}
+int main(int argc, char **argv)
+{
+	int r = 0;
+	empties(%(m0)d, argv[2]);
+	r += use(argv[1], "c10u_xfunc_in_first", 1);
+	empties(%(m1)d, argv[1]);
+	r += use(argv[2], "c10u_yfunc_in_other", 2);
+	empties(%(m2)d, argv[1]);
+	%(third)s
+	return r == 12345;
+}
+"""
+
+U_EVALS = [
+    ("vname", "bad_indices (fun pr => match pr with (tid, t, a, ans) => ok_resolve_name ugs utl tid t a ans end) uprobes 0"),
+    ("vstamp", "if ok_stamp_window uwin then [] else [0%nat]"),
+    ("vorder", "if ok_load_order uloads (map (fun pr => match pr with (tid, t, a, ans) => (t, a) end) uprobes) then [] else [0%nat]"),
+    ("mismatch", "let lk := open_data dem_plain udir in bad_indices (fun pr => match pr with (tid, t, a, ans) => "
+                 "match resolve lk tid t a, ans with Some s, Some nm => str_eqb (s_name s) nm | None, None => true | _, _ => false end end) uprobes 0"),
+]
+
+
+def part_reload(ctx, objdir):
+    rng = ctx.rng
+    uft = os.path.join(objdir, "uftrace")
+    root = os.path.join(ctx.scratch, "reload")
+    os.makedirs(root, exist_ok=True)
+    variants = [("u0", 1, 0, 0, False)] + [("u%d" % (k + 1), rng.randrange(8), rng.randrange(8), rng.randrange(8), rng.random() < 0.5)
+                                           for k in range(ctx.n(1, 5))]
+    for tag, m0, m1, m2, third in variants:
+        w = os.path.join(root, tag)
+        os.makedirs(w)
+        open(os.path.join(w, "first.c"), "w").write(U_LIB_C % ("xfunc_in_first", 10))
+        open(os.path.join(w, "other.c"), "w").write(U_LIB_C % ("yfunc_in_other", 20))
+        open(os.path.join(w, "main.c"), "w").write(U_MAIN_C % {"m0": m0, "m1": m1, "m2": m2,
+                                                                "third": 'r += use(argv[1], "c10u_xfunc_in_first", 3);' if third else ""})
+        sh(["gcc", "-pg", "-O0", "-fPIC", "-shared", "-o", "libc10first.so", "first.c"], cwd=w, check=True)
+        sh(["gcc", "-pg", "-O0", "-fPIC", "-shared", "-o", "libc10other.so", "other.c"], cwd=w, check=True)
+        sh(["gcc", "-pg", "-O0", "-o", "prog", "main.c", "-ldl"], cwd=w, check=True)
+        d = os.path.join(w, "data")
+        libs = [os.path.join(w, "libc10first.so"), os.path.join(w, "libc10other.so")]
+        rc, out, err = sh(["timeout", "40", uft, "record", "--no-pager", "--no-event", "--libmcount-path=" + objdir, "-d", d,
+                           "./prog"] + libs, timeout=60, cwd=w)
+        if rc == 124 or not os.path.exists(os.path.join(d, "task.txt")):
+            ctx.broken("reload(%s): uftrace record failed (rc=%d): %s" % (tag, rc, (out + err)[-300:]))
+            continue
+        loads = [(l.split()[1], int(l.split()[2], 16), int(l.split()[3], 16)) for l in (out + err).splitlines() if l.startswith("C10LOAD ")]
+        rc, rout, rerr = datadir.uftrace(objdir, "replay", d, ["-f", "tid,addr,time,module", "--demangle=no"])
+        recs = parse_replay_fields(rout)
+        events = parse_task_txt(os.path.join(d, "task.txt"))
+        tabs = {"c10u_xfunc_in_first": [(a, sz, "T", nm) for a, sz, nm in nm_funcs(libs[0])],
+                "c10u_yfunc_in_other": [(a, sz, "T", nm) for a, sz, nm in nm_funcs(libs[1])]}
+        # ground truth: the k-th load (program order) serves the k-th call; its library is mapped from just after the
+        # previous call's record on
+        def in_lib_fn(addr):
+            return any(base + a <= addr < base + a + sz for sym, base, fa in loads for a, sz, _, nm in tabs[sym] if nm == sym)
+        call_recs = [(t, addr) for tid, addr, t, mod, nm in recs if in_lib_fn(addr)]
+        dl_calls = [t for tid, addr, t, mod, nm in recs if nm == "dlopen" or (nm.startswith("<") and False)]
+        if len(call_recs) != len(loads):
+            ctx.broken("reload(%s): %d calls into the libraries recorded, %d expected" % (tag, len(call_recs), len(loads)), rout[-1500:])
+            continue
+        gdl, prev_t = [], 0
+        for (sym, base, fa), (t, addr) in zip(loads, call_recs):
+            gdl.append((prev_t, base, tabs[sym]))
+            prev_t = t + 1
+        dlops = [e for e in events if e[0] == "DLOP"]
+        # the dlopen() record that precedes each library call (PLT entry of the loading call)
+        windows, problems = [], []
+        for k, (sym, base, fa) in enumerate(loads):
+            t_call = call_recs[k][0]
+            prior = [t for t in dl_calls if t < t_call]
+            libname = os.path.basename(libs[0] if "first" in sym else libs[1])
+            cand = [e for e in dlops if os.path.basename(e[4]) == libname and e[3] == base and e[2] <= t_call]
+            if not prior or not cand:
+                problems.append("no DLOP entry at or before the call into %s (load %d)" % (libname, k))
+                continue
+            windows.append((max(prior), max(c[2] for c in cand), t_call))
+        prog_tab = [(a, sz, "T", nm) for a, sz, nm in nm_funcs(os.path.join(w, "prog"))]
+        pbase = 0
+        for l in (out + err).splitlines():
+            pass
+        probes = [(tid, t, addr, None if (nm.startswith("<") and nm.endswith(">")) else nm) for tid, addr, t, mod, nm in recs]
+        tid0 = recs[0][0]
+        maps, files = {}, {}
+        for e in events:
+            if e[0] == "SESS":
+                maps[e[3]] = open(os.path.join(d, "sid-%s.map" % e[3]), "rb").read()
+        for n in ("prog", "libc10first.so", "libc10other.so"):
+            fn = os.path.join(d, n + ".sym")
+            if os.path.exists(fn):
+                files[n + ".sym"] = open(fn, "rb").read()
+        ext = {os.path.basename(libs[0]): max(a + sz for a, sz, _, _ in tabs["c10u_xfunc_in_first"]),
+               os.path.basename(libs[1]): max(a + sz for a, sz, _, _ in tabs["c10u_yfunc_in_other"])}
+        defs = "Definition ugs : list gt_session := [mkGt [] [%s]].\n" % "; ".join("(%d, %d, %s)" % (t, b, ctab(tb)) for t, b, tb in gdl)
+        defs += "Definition utl : list (Z * list (Z * nat)) := [(%d, [(0, 0%%nat)])].\n" % tid0
+        defs += "Definition uprobes : list (Z * Z * Z * option str) := [%s].\n" % "; ".join(
+            "(%d, %d, %d, %s)" % (p[0], p[1], p[2], copt(p[3], cstr)) for p in probes)
+        defs += "Definition uwin : list (Z * Z * Z) := [%s].\n" % "; ".join("(%d, %d, %d)" % x for x in windows)
+        # ordering invariant only for the library that owns the record (ground truth), i.e. the load that serves the call
+        defs += "Definition uloads : list (Z * Z * Z) := [].\n"
+        defs += "Definition udir : datadir := mkDir [%s] [%s] [%s] false.\n" % (
+            "; ".join(cevent(e) for e in events),
+            "; ".join("(%s, %s)" % (cstr(k), cstr(v)) for k, v in maps.items()),
+            "; ".join("(%s, %s)" % (cstr(k), cstr(v)) for k, v in files.items()))
+        res = coq.run_cases(ctx, "cases_u_" + tag, PRE, defs, U_EVALS, timeout=600)
+        same = len(set(b for _, b, _ in loads)) < len(loads)
+        ctx.case(key=("U", tag, m0, m1, m2, third), size=len(recs),
+                 tags=["U:unload+reload", "U:same-range" if same else "U:different-range", "U:loads=%d" % len(loads)]
+                 + (["U:dlopen(NULL)-first"] if m0 & 1 else []) + (["U:failed-dlopen"] if (m0 | m1 | m2) & 2 else [])
+                 + (["U:RTLD_NOLOAD"] if (m0 | m1 | m2) & 4 else []) + (["U:dlopen(NULL)-between"] if m1 & 1 else []),
+                 sample={"part": "U", "loads": [[s_, "%x" % b] for s_, b, _ in loads], "dlop": [[e[2], "%x" % e[3], os.path.basename(e[4])] for e in dlops]}
+                 if tag == "u0" else None)
+        if res is None:
+            continue
+        r = {k: coq.parse_nat_list(v) for k, v in res.items()}
+        raw = [["%x" % p[2], p[1]] for p in probes if p[3] is None]
+        rep = {"part": "U", "masks": [m0, m1, m2], "third": third, "loads": [[s_, "%x" % b, "%x" % fa] for s_, b, fa in loads],
+               "dlop": [[e[2], "%x" % e[3], e[4]] for e in dlops], "windows(dlopen record, DLOP stamp, first call)": windows,
+               "source": open(os.path.join(w, "main.c")).read(), "replay": rout[-2500:]}
+        if r["vname"] or r["vstamp"] or raw or problems:
+            what = list(problems)
+            if r["vname"]:
+                what.append("calls shown under a wrong function: %s" % [[probes[i][3], "%x" % probes[i][2]] for i in r["vname"][:4]])
+            if r["vstamp"]:
+                what.append("a DLOP time stamp lies outside [record of its dlopen() call, first call into the library]")
+            if raw:
+                what.append("raw addresses %s" % raw[:4])
+            ctx.violation("real recording with unload/reload over one address range: " + "; ".join(what), rep, True)
+        elif r["mismatch"]:
+            ctx.violation("model of the analysis side and `uftrace replay` disagree on an unload/reload recording (%d records)" % len(r["mismatch"]),
+                          dict(rep, first=list(probes[r["mismatch"][0]])), False)
+
+
 # ---------------------------------------------------------------- P: PLT entries of real ELF files
 # Executables built -no-pie / -pie, with and without address-taken library functions (canonical PLT
 # entries: st_value != 0 in an undefined dynsym), with and without .plt.sec.  Ground truth: objdump's
@@ -2018,6 +2182,7 @@ def run(ctx):
                     ("D data directories", lambda: part_datadirs(ctx, h)), ("E end to end", lambda: (part_e2e(ctx, objdir), part_rawdisplay(ctx, objdir))),
                     ("R real recordings with static initialisers", lambda: part_recordings(ctx, objdir)),
                     ("X real recordings across fork and exec", lambda: part_forkexec(ctx, objdir)),
+                    ("U unload and reload over one address range", lambda: part_reload(ctx, objdir)),
                     ("P PLT entries of ELF files", lambda: part_plt(ctx, h, objdir))):
         n0 = ctx.evaluations
         f()
@@ -2065,5 +2230,7 @@ def replay(ctx, obj):
             part_plt(ctx, h, objdir)
         elif part == "X":
             part_forkexec(ctx, objdir)
+        elif part == "U":
+            part_reload(ctx, objdir)
         else:
             part_kernels(ctx, h)
